@@ -12,6 +12,7 @@ use hxlib::util::{Args, Sink};
 
 pub const REQ: &str = "Common.Base Index.Model_ScanPlan";
 pub const CLASS_PUSHDOWN: &str = "limit_pushdown_skips_unguaranteed_rows";
+pub const CLASS_BITMAP_RANGE: &str = "bitmap_index_inverted_range_panic";
 pub const CLASS_LIMIT0: &str = "limit_zero_ignored";
 pub const CLASS_ORDER_UNPROJ: &str = "order_by_unprojected_column";
 
@@ -28,6 +29,13 @@ fn run(args: &Args) -> i32 {
     }
     if want("e2e") {
         rt.block_on(e2e::run(args, &mut sink));
+    }
+    // mandatory sanity test of the check itself (CONTRIB): HX_C16_PLANT=1 records one wrong implementation
+    // output (as if intersect_ranges had returned [5..11) for [0..10) x [5..15)) - `check` must report a DIFF
+    if std::env::var("HX_C16_PLANT").is_ok() {
+        let mut s = hxlib::util::Stream::new("planted", REQ, "chk_intersect", "ranges * ranges", "outcome ranges");
+        s.push("([(0, 10)], [(5, 15)])".into(), "(Ok [(5, 11)])".into(), serde_json::json!({"planted": "wrong intersect_ranges output"}));
+        sink.add(s);
     }
     sink.finish();
     0
